@@ -193,6 +193,11 @@ func genAccCase(rng *rand.Rand) *accCase {
 		}
 		c.RawQuery = core.B(b)
 	}
+	if rng.Intn(60) == 0 {
+		// boundary lengths
+		n := []int{255, 256, 1023, 1024, 4095, 4096, 65535, 65536}[rng.Intn(8)]
+		c.RawQuery = core.B("q=" + strings.Repeat([]string{"7", "a", "%41"}[rng.Intn(3)], n))
+	}
 	seg := accValues[rng.Intn(len(accValues))]
 	seg = strings.ReplaceAll(seg, "/", "")
 	if seg == "" {
